@@ -1109,11 +1109,15 @@ func hasOp(ops []simcore.Op, k string) bool {
 	return false
 }
 
-// singleStream: the runner delivered to exactly one operator during the whole run.
+// singleStream: the runner was deployed once, with a single operator, so everything
+// it forwards travels on one stream.
 func (w *cluWorld) singleStream(srID string) bool {
 	n := 0
-	for k := range w.streams {
-		if strings.HasPrefix(k, srID+">") {
+	for _, d := range w.deploys {
+		if d.kind == "sr" && d.target == srID {
+			if len(d.ops) != 1 {
+				return false
+			}
 			n++
 		}
 	}
